@@ -7,7 +7,8 @@ Sub-checks
            relative to the current shape).  A value-carrying row model (hidden id, raw values, name, group) is
            edited alongside; after every step each retained taxon's unscaled row must equal its raw row, NaN
            positions must be identical, labels must follow, and the original-scale summaries must still describe
-           the raw values.
+           the raw values.  Every object an earlier step was applied to, and every matrix handed over as an argument,
+           is kept alive and re-verified (labels, unscaled values, NaN positions) after every later step.
   scaled   the generic DenseScaledMatrix: rescale / unscale (in place and not), transform / untransform.
 
 Oracle: python lists + fractions.Fraction (exact mean / variance of the raw floats); tolerances are forward error
@@ -34,6 +35,11 @@ ASSUMPTIONS = [
     "'that summary of the raw values' is ambiguous there); NaN columns get the round trip and non-contamination clauses",
     "append_taxa / incorp_taxa are exercised with a breeding-value-matrix argument only (a bare ndarray is ambiguous: "
     "raw or already scaled)",
+    "a block of no taxa is handed over as a (0,t) ndarray with empty label arrays (also to append_taxa / incorp_taxa: with "
+    "no rows there is nothing that could be raw or scaled); a zero-taxon breeding-value matrix object is never built",
+    "an object no later operation is applied to (the receiver of a copying operation, a matrix passed as an argument) must "
+    "keep its labels and unscaled values whatever is done later to the objects derived from it: 'built from raw values "
+    "... unscaling reproduces the raw value of every taxon' has no expiry",
     "targmax/targmin may return any index whose raw value ties with the extremum after rounding",
 ]
 
@@ -104,7 +110,8 @@ def nonnan(col):
 # ----------------------------------------------------------------------------------------------------------------
 # generators
 # ----------------------------------------------------------------------------------------------------------------
-KINDS = ["normal", "normal", "ints", "const", "const_inexact", "offset", "offset", "tiny", "twolevel"]
+KINDS = ["normal", "normal", "ints", "const", "const_inexact", "offset", "offset", "tiny", "twolevel", "unit", "unit"]
+UNIT_EXP = (-30, 10)        # "unit": an ordinary trait expressed in a unit of 10**e (mol/g ... mg/t): spreads 1e-32 .. 1e12
 
 
 @st.composite
@@ -121,6 +128,8 @@ def col_profile(draw):
         base = draw(st.sampled_from([1.0, 0.1, 1000.0, -2.5]))
     elif kind == "twolevel":
         base = draw(st.sampled_from([0.0, 10.0, -1.5, 1e9]))
+    elif kind == "unit":
+        base = float(draw(st.integers(*UNIT_EXP)))          # the decimal exponent of the unit
     hasnan = draw(st.sampled_from([False, False, True]))
     return {"kind": kind, "base": base, "nan": hasnan}
 
@@ -139,6 +148,9 @@ def value_for(pf):
         return st.integers(-3, 3).map(lambda q: b + q * 1e-9)
     if k == "twolevel":
         return st.sampled_from([b, b + 1.0])
+    if k == "unit":
+        u = float("1e%d" % int(b))
+        return st.integers(-100000, 100000).map(lambda q: (q / 1000.0) * u)
     raise AssertionError(k)
 
 
@@ -336,6 +348,8 @@ def check_values(case, ctx):
     ctx.label("constant_trait", any(o["const"] for o in os_))
     ctx.label("large_offset", any(o["A"] >= 1e6 and not o["const"] for o in os_))
     ctx.label("tiny_spread", any(0.0 < o["std"] < 1e-6 * max(o["A"], 1e-300) for o in os_))
+    ctx.label("spread_below_1e-9", any(0.0 < o["std"] < 1e-9 for o in os_))       # absolute: a trait in a small unit
+    ctx.label("spread_above_1e6", any(o["std"] > 1e6 for o in os_))
     ctx.label("single_taxon", n == 1)
     ctx.label("ties_at_extremum", any(c.count(max(c)) > 1 and not o["const"] for c, o in zip(cols, os_)))
     ctx.nontrivial(n >= 3 and any(not o["const"] for o in os_))
@@ -377,8 +391,8 @@ def history_case(draw):
         elif name in ("delete", "remove"):
             ops.append([name, draw(st.one_of(rawi, st.lists(rawi, min_size=1, max_size=4)))])
         else:
-            k = draw(st.integers(1, 3))
-            new = draw(rows_strategy(k, profiles, keep_one=False, nan_odds=5))
+            k = draw(st.sampled_from([0, 1, 1, 2, 2, 3]))        # 0: a block of no taxa ("no candidate passed the filter")
+            new = draw(rows_strategy(k, profiles, keep_one=False, nan_odds=5)) if k else []
             g = [draw(st.integers(0, 3)) for _ in range(k)]
             if name in ("insert", "incorp"):
                 ops.append([name, draw(rawi), new, g, draw(st.booleans())])
@@ -418,6 +432,37 @@ def check_history(case, ctx):
     def bv(rs):
         return build(cname, [r["vals"] for r in rs], [r["name"] for r in rs], [r["grp"] for r in rs] if has_grp else None)
 
+    def block(add, as_bv):
+        """The operand of an insert/adjoin/append/incorp: a matrix object, or the raw (k,t) array with its labels
+        (always the array for a block of no taxa: nothing to standardise, nothing that could be raw or scaled)."""
+        if as_bv and add:
+            return bv(add), {}
+        kw = {"taxa": numpy.array([r["name"] for r in add], dtype=object)}
+        if has_grp:
+            kw["taxa_grp"] = numpy.array([r["grp"] for r in add], dtype=int)
+        return to_array([r["vals"] for r in add]).reshape(len(add), t), kw
+
+    # objects that earlier steps produced or consumed and that no later step is applied to: each must keep describing
+    # its own taxa whatever is done afterwards to the objects derived from it
+    alive = []
+
+    def retire(obj, rs, k, what):
+        alive.append({"obj": obj, "rows": [list(r["vals"]) for r in rs], "names": [r["name"] for r in rs],
+                      "grp": [r["grp"] for r in rs], "k": k, "what": what})
+
+    def recheck_alive(after):
+        pre = "history.earlier_object."
+        for e in alive:
+            o = e["obj"]
+            ctx.check(o.taxa is not None and list(o.taxa) == e["names"], pre + "taxa",
+                      lambda: "%s: taxa %s, but it was built with / left holding %s (after a later %s on another object)"
+                      % (e["what"], None if o.taxa is None else list(o.taxa), e["names"], after))
+            if has_grp:
+                ctx.check(o.taxa_grp is not None and [int(g) for g in o.taxa_grp] == e["grp"], pre + "taxa_grp",
+                          lambda: "%s: taxa_grp %s, expected %s (after a later %s on another object)"
+                          % (e["what"], None if o.taxa_grp is None else list(o.taxa_grp), e["grp"], after))
+            check_unscaled(ctx, o, e["rows"], pre, e["k"], M)
+
     see(model)
     cur = bv(model)
     trips = 1              # number of standardise/unscale round trips the oldest value may have been through
@@ -444,6 +489,8 @@ def check_history(case, ctx):
         pre = "history.%s." % name
         snap = (cur.mat.copy(), cur.location.copy(), cur.scale.copy())
         skip_values_rows = set()          # rows whose value clause is excluded by a known finding
+        prev, prev_model, prev_k = cur, model, 2 * trips
+        operands = []                     # matrix objects handed to this operation: (object, their rows)
         if name == "select":
             idx = [r % n for r in op[1]]
             # the same entities addressed through negative indices in a third of the positions (a tail selection)
@@ -473,41 +520,43 @@ def check_history(case, ctx):
             pos = op[1] % (n + 1)
             add = mkrows(op[2], op[3])
             see(add)
-            as_bv = op[4] or name == "incorp"
-            names = numpy.array([r["name"] for r in add], dtype=object)
-            grps = numpy.array([r["grp"] for r in add], dtype=int) if has_grp else None
-            val = bv(add) if as_bv else to_array([r["vals"] for r in add])
+            val, kw = block(add, op[4] or name == "incorp")
+            if not kw:
+                operands.append((val, add))
+            ctx.label("zero_row_operand", not add)
             model2 = model[:pos] + add + model[pos:]
             if name == "insert":
-                new = cur.insert_taxa(pos, val) if as_bv else cur.insert_taxa(pos, val, taxa=names, taxa_grp=grps)
+                new = cur.insert_taxa(pos, val, **kw)
             else:
-                cur.incorp_taxa(pos, val)
+                cur.incorp_taxa(pos, val, **kw)
                 new = cur
                 # F-C15-c: the argument's *scaled* values are spliced under self's location/scale
-                if ctx.known("F-C15-c", True):
+                if add and ctx.known("F-C15-c", True):
                     skip_values_rows = set(range(pos, pos + len(add)))
             ctx.label("inserted_all_nan_trait", any(all(r["vals"][j] is None for r in add) for j in range(t)))
         elif name in ("adjoin", "append"):
             add = mkrows(op[1], op[2])
             see(add)
-            as_bv = op[3] or name == "append"
-            names = numpy.array([r["name"] for r in add], dtype=object)
-            grps = numpy.array([r["grp"] for r in add], dtype=int) if has_grp else None
-            val = bv(add) if as_bv else to_array([r["vals"] for r in add])
+            val, kw = block(add, op[3] or name == "append")
+            if not kw:
+                operands.append((val, add))
+            ctx.label("zero_row_operand", not add)
             model2 = model + add
             if name == "adjoin":
-                new = cur.adjoin_taxa(val) if as_bv else cur.adjoin_taxa(val, taxa=names, taxa_grp=grps)
+                new = cur.adjoin_taxa(val, **kw)
             else:
-                cur.append_taxa(val)
+                cur.append_taxa(val, **kw)
                 new = cur
-                if ctx.known("F-C15-c", True):
+                if add and ctx.known("F-C15-c", True):
                     skip_values_rows = set(range(n, n + len(add)))
         elif name == "concat":
             a = mkrows(op[1], op[2])
             b = mkrows(op[3], op[4])
             see(a + b)
             first = op[5]
-            parts = [bv(a)] + ([bv(b)] if b else [])
+            parts = [bv(x) for x in (a, b) if x]           # possibly none: the one-element list [cur]
+            operands.extend((p, x) for p, x in zip(parts, [x for x in (a, b) if x]))
+            ctx.label("concat_of_one_matrix", not parts)
             mats = ([cur] + parts) if first else (parts + [cur])
             model2 = (model + a + b) if first else (a + b + model)
             # F-C15-b: concat_taxa is inherited: it joins the *scaled* matrices and calls cls(mat=...) without
@@ -541,6 +590,10 @@ def check_history(case, ctx):
             trips += 1          # values handed over as a matrix went through their own round trip
         cur, model = new, model2
         rows = [r["vals"] for r in model]
+        if name not in INPLACE:
+            retire(prev, prev_model, prev_k, "the receiver of step %d (%s)" % (step, name))
+        for o_, rs_ in operands:
+            retire(o_, rs_, 2, "a matrix argument of step %d (%s)" % (step, name))
 
         # labels follow the rows
         ctx.check(cur.taxa is not None and list(cur.taxa) == [r["name"] for r in model], pre + "taxa",
@@ -561,6 +614,9 @@ def check_history(case, ctx):
             if bad:
                 resync(bad)
         rows = [r["vals"] for r in model]
+        # every object of an earlier step still holds its own taxa with their raw values
+        ctx.label("inplace_step_with_earlier_objects_alive", name in INPLACE and bool(alive))
+        recheck_alive(name)
         if cur.mat.shape[0] != len(model):
             return      # shape clause already failed (suppressed): nothing further can be aligned
 
@@ -701,14 +757,17 @@ def check_scaled(case, ctx):
 SUBCHECKS = [
     SubCheck("values", check_values, values_case(), quick=1500, thorough=4000, shards_quick=4,
              rule="generated raw (n 1-12, t 1-3) matrices by column profile (normal, ints, constant exact/inexact mean, offsets "
-                  "to 1e12 with unit spread, 1e-9 spreads, two-level ties; NaN entries, never a whole column) x three classes; "
+                  "to 1e12 with unit spread, 1e-9 spreads, two-level ties, ordinary values in units of 1e-30..1e10; NaN entries, "
+                  "never a whole column) x three classes; "
                   "non-trivial = >= 3 taxa and >= 1 non-constant trait; distinct by sha1 of the case",
-             required_labels=("constant_trait", "has_nan", "large_offset", "class_E", "class_G")),
+             required_labels=("constant_trait", "has_nan", "large_offset", "class_E", "class_G", "spread_below_1e-9",
+                              "spread_above_1e6")),
     SubCheck("history", check_history, history_case(), quick=1500, thorough=3000, shards_quick=4,
              rule="start matrix + 1-7 taxa-axis operations (select/delete/insert/adjoin/concat/append/remove/incorp, indices "
-                  "relative to the current shape, new rows as raw ndarray or as a matrix object); non-trivial = >= 3 taxa at "
+                  "relative to the current shape, new rows as raw ndarray or as a matrix object, blocks of 0-3 taxa); every earlier "
+                  "receiver / matrix argument is kept and re-verified after every later step; non-trivial = >= 3 taxa at "
                   "the end, >= 2 distinct operation kinds, >= 1 non-constant trait",
-             required_labels=tuple("op_" + o for o in OPS)),
+             required_labels=tuple("op_" + o for o in OPS) + ("zero_row_operand", "inplace_step_with_earlier_objects_alive")),
     SubCheck("scaled", check_scaled, scaled_case(), quick=800, thorough=2500, shards_quick=2,
              rule="DenseScaledMatrix (matrix or cube) with explicit location/scale + 1-5 of rescale/unscale (in place or copy) / "
                   "transform+untransform; non-trivial = >= 3 rows and >= 2 distinct operations"),
